@@ -41,7 +41,7 @@ TdmsTypeOfValue(vc) ==
     [] vc \in {"float", "float_nan", "float_int_valued", "float_five"} -> "DoubleFloat"
     [] vc \in {"bool_true", "bool_false", "np_bool"} -> "Boolean"
     [] vc \in {"str_ascii", "str_multibyte", "str_empty", "str_tag"} -> "String"
-    [] vc \in {"datetime", "datetime64_us", "datetime64_s", "tdms_timestamp"} -> "TimeStamp"
+    [] vc \in {"datetime", "datetime64_us", "datetime64_s", "tdms_timestamp", "datetime_tz"} -> "TimeStamp"
     [] vc = "np_int8" -> "Int8"   [] vc = "np_int16" -> "Int16" [] vc = "np_int32" -> "Int32" [] vc = "np_int64" -> "Int64"
     [] vc = "np_uint8" -> "Uint8" [] vc = "np_uint16" -> "Uint16" [] vc = "np_uint32" -> "Uint32"
     [] vc = "np_uint64" -> "Uint64" [] vc = "np_float32" -> "SingleFloat" [] vc = "np_float64" -> "DoubleFloat"
@@ -64,10 +64,10 @@ TdmsTypesOfArray(ac) ==
     [] ac = "list_i64" -> {"Int64"} [] ac = "list_u64" -> {"Uint64"}
     [] ac = "list_float" -> {"DoubleFloat"} [] ac = "list_bool" -> {"Int8", "Boolean"}
     [] ac \in {"list_str", "np_str", "list_str_multibyte", "list_str_all_empty", "np_obj_str"} -> {"String"}
-    [] ac \in {"np_datetime64_us", "np_datetime64_ns", "list_datetime", "timestamp_array", "np_obj_datetime", "list_datetime64"} -> {"TimeStamp"}
+    [] ac \in {"np_datetime64_us", "np_datetime64_ns", "list_datetime", "timestamp_array", "np_obj_datetime", "list_datetime64", "list_datetime_tz"} -> {"TimeStamp"}
 
 ListClass(ac) == ac \in {"list_i8", "list_u8", "list_i16", "list_u16", "list_i32", "list_u32", "list_i64", "list_u64",
-                         "list_float", "list_bool", "list_str", "list_str_multibyte", "list_str_all_empty", "list_datetime", "list_datetime64"}
+                         "list_float", "list_bool", "list_str", "list_str_multibyte", "list_str_all_empty", "list_datetime", "list_datetime64", "list_datetime_tz"}
 \* classes whose type is taken from the first element: an empty array of them cannot be written
 NeedsElement(ac) == ListClass(ac) \/ ac \in {"np_str", "np_obj_str", "np_obj_datetime", "timestamp_array", "np_be_int32", "np_be_float64",
                                               "np_datetime64_us", "np_datetime64_ns"}
@@ -154,7 +154,7 @@ WriteSegment ==
 \* A call the writer refuses - an unsupported property value, an array dtype without a TDMS type, the same path twice -
 \* raises and changes nothing: no segment is emitted and the bookkeeping of declared objects stays as it was.
 \* (The refused call carries the objects of some legal call plus the offending one: L is recorded for the replay.)
-RefusalKinds == {"bad_property_value", "unsupported_dtype", "duplicate_path"}
+RefusalKinds == {"bad_property_value", "unsupported_dtype", "duplicate_path", "list_beyond_inferred_type"}
 NRefused == Cardinality({i \in DOMAIN prog : prog[i].call = "refused"})
 RefusedWrite ==
   /\ open /\ NRefused < MaxRefused /\ NCalls < MaxCalls
